@@ -57,6 +57,11 @@ fn nesting(i: usize) -> Vec<String> {
         format!("({})", rep("variant { a = ", "null", " }")), rep("opt ", "nat", ""), rep("vec ", "nat", ""), rep("record { a : ", "nat", " }"), rep("variant { a : ", "nat", " }"),
         format!("type t = {};", rep("opt ", "t", "")), format!("type t = {};", rep("record { ", "nat", " }")), format!("service : {{ f : ({}) -> () }}", rep("func (", "", ") -> ()")),
         format!("({})", rep("func ((", "", ")) -> ()")), rep("/*", "x", "*/"), format!("\"{}\"", "\\u{41}".repeat(n * 10)), format!("({})", "1 : nat, ".repeat(n * 10)),
+        // numerals of unusual length inside escapes and literals: digit runs of 8..64, with leading zeros and underscores
+        format!("(\"\\u{{{}}}\")", "f".repeat([8usize, 9, 16, 17, 33, 64][i % 6])), format!("(\"\\u{{1{}}}\")", "0".repeat([7usize, 8, 15, 16, 17, 40][i % 6])),
+        format!("(\"\\u{{{}41}}\")", "0".repeat([6usize, 14, 15, 16, 30, 62][i % 6])), format!("(\"\\u{{{}}}\")", "1_".repeat([4usize, 8, 9, 17, 20, 33][i % 6])),
+        format!("(0x{})", "f".repeat([8usize, 16, 17, 32, 33, 64][i % 6])), format!("({}.{}e{})", "9".repeat(n), "9".repeat(n), "9".repeat([1usize, 3, 5, 10, 20, 40][i % 6])),
+        format!("(record {{ {} = 1 }})", "9".repeat([9usize, 10, 11, 19, 20, 40][i % 6])), format!("type t = record {{ {} : nat }};", "4".repeat([9usize, 10, 11, 19, 20, 40][i % 6])),
     ]
 }
 pub fn run(o: &Opts) {
